@@ -186,3 +186,64 @@ func ruleIndexCalls(p *Prog, r *Report) {
 	}
 	r.floor("R20.9", "index arguments of slices.Insert / Delete / Replace", n, 1)
 }
+
+// ruleMustCalls (R20.10): library functions that panic instead of returning an error.
+func ruleMustOnConstants(p *Prog, r *Report) {
+	r.rule("R20.10", "Library functions named Must* (regexp.MustCompile, netip.MustParsePrefix, template.Must, ...) panic where their sibling returns an error. In production code they are called with constant arguments only (a wrong constant fails in every run and every test; a pattern of constants and regexp.QuoteMeta results always compiles; a parameter counts when every caller passes such a value), never with text that comes from a configuration file, the device or the command line: such a panic is not an errlog abort, the process ends with a stack trace and exit status 2.")
+	n := 0
+	for _, fn := range allModFuncs(p) {
+		for _, cs := range callsOf(fn) {
+			f := cs.Static
+			if f == nil || isModFunc(f) || f.Pkg == nil {
+				continue
+			}
+			g := f
+			if o := f.Origin(); o != nil {
+				g = o
+			}
+			if len(g.Name()) < 5 || g.Name()[:4] != "Must" {
+				continue
+			}
+			n++
+			bad := ""
+			var okArg func(a ssa.Value, in *ssa.Function, d int) bool
+			okArg = func(a ssa.Value, in *ssa.Function, d int) bool {
+				if _, ok := constString(a); ok {
+					return true
+				}
+				if quotedPattern(a, 0) {
+					return true // constants and regexp.QuoteMeta results: always compiles
+				}
+				par, isP := a.(*ssa.Parameter)
+				if !isP || d > 2 {
+					return false
+				}
+				// handed through: every caller passes such a value
+				idx := -1
+				for i, q := range in.Params {
+					if q == par {
+						idx = i
+					}
+				}
+				callers := callersOf(p.CG(), in)
+				if idx < 0 || len(callers) == 0 {
+					return false
+				}
+				for _, e := range callers {
+					if e.Site == nil || idx >= len(e.Site.Common().Args) || !okArg(e.Site.Common().Args[idx], e.Caller.Func, d+1) {
+						return false
+					}
+				}
+				return true
+			}
+			for _, a := range cs.In.Common().Args {
+				if isStringType(a.Type()) && !okArg(a, fn, 0) {
+					bad = descValue(a, 0)
+				}
+			}
+			r.add("R20.10", fmt.Sprintf("must-call|%s|%s", fnDisplay(fn), rawShortName(g)), p.ipos(cs.In), rawShortName(g)+" in "+fnDisplay(fn)+" is called with constants", bad == "",
+				"the argument "+bad+" is computed: input that the function rejects ends the process with a panic")
+		}
+	}
+	r.floor("R20.10", "calls of library Must* functions", n, 5)
+}
